@@ -42,7 +42,7 @@ def formula_rule(ctx, rule, fi, node, want, relations=(), what="", key="", env=N
     ok = equal_under(got, want, relations)
     ctx.check(ok, rule, fi.site, f"{what} = {want}" + (" (under the geometry relation hi = lo + n*dx)" if relations else ""),
               f"{what} evaluates to {got}; the specification is {want}", key=key, where=loc(fi, node),
-              objects={"got": str(got), "want": str(want)})
+              objects={"got": str(got), "want": str(want)}, semantic=True)
     return got
 
 
